@@ -701,7 +701,7 @@ LIST_FORMS = {
     'x + c': lambda x, c: x + c, 'x - c': lambda x, c: x - c, 'x * c': lambda x, c: x * c, 'x / c': lambda x, c: x / c,
     'c + x': lambda x, c: c + x, 'c - x': lambda x, c: c - x, 'c * x': lambda x, c: c * x, 'c / x': lambda x, c: c / x,
     'x += c': lambda x, c: operator.iadd(x, c), 'x -= c': lambda x, c: operator.isub(x, c), 'x *= c': lambda x, c: operator.imul(x, c),
-    'x /= c': lambda x, c: operator.itruediv(x, c),
+    'x /= c': lambda x, c: operator.itruediv(x, c), 'x ** c': lambda x, c: x ** c, 'c ** x': lambda x, c: c ** x, 'x **= c': lambda x, c: operator.ipow(x, c),
 }
 
 
